@@ -1,4 +1,5 @@
 From Coq Require Import List ZArith NArith Bool Arith Lia Permutation.
+From Coq Require String.
 Import ListNotations.
 From DD Require Import Base.PyStr Base.Value Base.ValueFacts Diff.Tree Diff.DiffModel Hash.HashModel Hash.Equiv
   Hash.HashProofsBase Hash.HashProofsC06 DiffIO.DiffIOModel.
@@ -193,15 +194,24 @@ Proof.
   apply dedup_In. apply Hs. apply dedup_In. exact Hin.
 Qed.
 
+Lemma if_true {A} (b : bool) (x y : A) : b = true -> (if b then x else y) = x.
+Proof. intros ->; reflexivity. Qed.
+Lemma if_false {A} (b : bool) (x y : A) : b = false -> (if b then x else y) = y.
+Proof. intros ->; reflexivity. Qed.
+Lemma rep_cases : rep = true \/ rep = false.
+Proof. destruct rep; auto. Qed.
+
 Lemma iter_empty recs xs ys p1 p2 :
   hashes_added H c rep xs ys = [] -> hashes_removed H c rep xs ys = [] ->
   (rep = true -> forall h, count h (h1 H c rep xs) = count h (h2 H c rep ys)) ->
   iter_deephash H no_skip c rep pairs recs xs ys p1 p2 = ([], []).
 Proof.
-  intros Ha Hr Hc. unfold iter_deephash. rewrite Ha, Hr. cbn [added_loop map concat_res fold_right app2 fst snd app].
-  destruct rep; [|reflexivity].
-  rewrite concat_res_nil; [reflexivity|].
-  intros h _. unfold repetition_one. rewrite !indexes_length, (Hc eq_refl h), Nat.eqb_refl. reflexivity.
+  intros Ha Hr Hc. unfold iter_deephash. destruct rep_cases as [E|E].
+  - rewrite (if_true _ _ _ E). unfold iter_rep. rewrite Ha, Hr.
+    cbn [added_loop map concat_res fold_right app2 fst snd app].
+    rewrite concat_res_nil; [reflexivity|].
+    intros h _. unfold repetition_one. rewrite !indexes_length, (Hc E h), Nat.eqb_refl. reflexivity.
+  - rewrite (if_false _ _ _ E). unfold iter_norep. rewrite Ha, Hr. reflexivity.
 Qed.
 
 Lemma seq_rel_iter recs xs ys p1 p2 :
@@ -425,5 +435,407 @@ Proof.
   - unfold diff_str. destruct (pystr_eqb s s0) eqn:E.
     + intros _. apply ValueFacts.pystr_eqb_eq in E. congruence.
     + destruct (_ && _); discriminate.
+Qed.
+
+(* C07 for the hasher at hand: equal hashes only for equivalent content *)
+Hypothesis Hyp_C07 : forall a b, wf a = true -> wf b = true -> tag_safe a = true -> tag_safe b = true ->
+  hvv a = hvv b -> eqv o a b.
+
+Section LevelSound.
+Variables (xs ys : list value) (p1 p2 : path).
+(* the induction hypothesis for the items of t1: an empty diff forces equal hashes *)
+Hypothesis IHx : forall x y q1 q2, In x xs -> In y ys -> fst (dio x y q1 q2) = [] -> hvv x = hvv y.
+
+Notation hh1 := (h1 H c rep xs).
+Notation hh2 := (h2 H c rep ys).
+Notation recs := (map dio xs).
+
+Lemma h1_item i r : nth_error hh1 i = Some r -> exists x, nth_error xs i = Some x /\ In x xs /\ hvv x = r.
+Proof.
+  intros Hn. apply nth_error_map_inv in Hn as [x [Hx Hr]]. exists x. split; auto. split; auto.
+  eapply nth_error_In; eauto.
+Qed.
+Lemma h2_item j a : nth_error hh2 j = Some a -> exists y, nth_error ys j = Some y /\ In y ys /\ hvv y = a.
+Proof.
+  intros Hn. apply nth_error_map_inv in Hn as [y [Hy Hr]]. exists y. split; auto. split; auto.
+  eapply nth_error_In; eauto.
+Qed.
+
+Lemma partner_in a rem r : partner H c rep pairs xs ys p1 a rem = Some r -> In r hh1.
+Proof.
+  unfold partner. destruct (find _ _) as [ji|]; [|discriminate].
+  destruct (nth_error hh1 (snd ji)) as [r'|] eqn:E; [|discriminate].
+  destruct (mem_h r' rem); [|discriminate]. intros X; inversion X; subst.
+  eapply nth_error_In; eauto.
+Qed.
+
+Lemma added_one_nonempty a rem :
+  In a hh2 -> ~ In a hh1 -> fst (fst (added_one H no_skip c rep pairs recs xs ys p1 p2 a rem)) <> [].
+Proof.
+  intros Ha2 Ha1. unfold added_one.
+  destruct (partner H c rep pairs xs ys p1 a rem) as [r|] eqn:P; cbn [fst]; [|rewrite rpt_one; discriminate].
+  apply partner_in in P.
+  destruct (h1_item _ _ (first_of_index r hh1 P)) as [x [Hx [Hxi Hxr]]].
+  destruct (h2_item _ _ (first_of_index a hh2 Ha2)) as [y [Hy [Hyi Hya]]].
+  unfold item2. fold hh2. rewrite Hy. rewrite (nth_rec_map _ _ _ Hx).
+  intro Hn. apply IHx in Hn; auto. apply Ha1. rewrite <- Hya, <- Hn, Hxr. exact P.
+Qed.
+
+Lemma added_one_rep_nonempty a rem :
+  In a hh2 -> ~ In a hh1 -> fst (fst (added_one_rep H no_skip c rep pairs recs xs ys p1 p2 a rem)) <> [].
+Proof.
+  intros Ha2 Ha1. unfold added_one_rep.
+  pose proof (indexes_nonempty a hh2 0 Ha2) as Hjs.
+  destruct (partner H c rep pairs xs ys p1 a rem) as [r|] eqn:P; cbn [fst].
+  - apply partner_in in P.
+    destruct (h1_item _ _ (first_of_index r hh1 P)) as [x [Hx [Hxi Hxr]]].
+    destruct (h2_item _ _ (first_of_index a hh2 Ha2)) as [y [Hy [Hyi Hya]]].
+    unfold item2. fold hh2. rewrite Hy. rewrite (nth_rec_map _ _ _ Hx).
+    pose proof (indexes_nonempty r hh1 0 P) as His.
+    destruct (indexes_of r hh1 0) as [|i0 is_]; [congruence|].
+    cbn [fold_right]. rewrite fst_app2. intro Hn. apply app_eq_nil in Hn as [Hn _].
+    apply IHx in Hn; auto. apply Ha1. rewrite <- Hya, <- Hn, Hxr. exact P.
+  - destruct (indexes_of a hh2 0) as [|j0 js]; [congruence|].
+    cbn [flat_map]. rewrite rpt_one. discriminate.
+Qed.
+
+Lemma added_loop_nil one adds rem :
+  (forall a rem', In a adds -> fst (fst (one a rem')) <> []) ->
+  fst (fst (added_loop one adds rem)) = [] -> adds = [].
+Proof.
+  destruct adds as [|a adds']; [reflexivity|]. intros Hone. cbn [added_loop].
+  destruct (one a rem) as [r1 rem1] eqn:E1. destruct (added_loop one adds' rem1) as [r2 rem2].
+  cbn [fst]. rewrite fst_app2. intro Hn. apply app_eq_nil in Hn as [Hn _].
+  exfalso. apply (Hone a rem (or_introl eq_refl)). rewrite E1. exact Hn.
+Qed.
+
+Lemma added_spec a : In a (hashes_added H c rep xs ys) -> In a hh2 /\ ~ In a hh1.
+Proof.
+  unfold hashes_added. rewrite filter_In. intros [Hi Hm]. unfold t2_hashes, t1_hashes in *.
+  apply (proj1 (dedup_In _ _)) in Hi. split; auto. apply negb_true_iff, mem_h_false in Hm.
+  intro X. apply Hm. apply (proj2 (dedup_In _ _)). exact X.
+Qed.
+Lemma removed_spec r : In r (hashes_removed H c rep xs ys) -> In r hh1 /\ ~ In r hh2.
+Proof.
+  unfold hashes_removed. rewrite filter_In. intros [Hi Hm]. unfold t2_hashes, t1_hashes in *.
+  apply (proj1 (dedup_In _ _)) in Hi. split; auto. apply negb_true_iff, mem_h_false in Hm.
+  intro X. apply Hm. apply (proj2 (dedup_In _ _)). exact X.
+Qed.
+
+Lemma count_notin h l : ~ In h l -> count h l = 0.
+Proof.
+  intros Hn. unfold count. rewrite filter_nil; [reflexivity|].
+  intros x Hx. destruct (pystr_eqb h x) eqn:E; [|reflexivity].
+  apply HashProofsBase.pystr_eqb_eq in E. subst. contradiction.
+Qed.
+
+Lemma all_in_2_1 : hashes_added H c rep xs ys = [] -> forall x, In x hh2 -> In x hh1.
+Proof.
+  intros Hadd x Hx. apply (proj2 (dedup_In _ _)) in Hx. unfold hashes_added in Hadd.
+  pose proof (filter_nil_inv _ _ x Hadd Hx) as Hf. apply negb_false_iff, mem_h_In in Hf.
+  apply (proj1 (dedup_In _ _)) in Hf. exact Hf.
+Qed.
+Lemma all_in_1_2 : hashes_removed H c rep xs ys = [] -> forall x, In x hh1 -> In x hh2.
+Proof.
+  intros Hrem x Hx. apply (proj2 (dedup_In _ _)) in Hx. unfold hashes_removed in Hrem.
+  pose proof (filter_nil_inv _ _ x Hrem Hx) as Hf. apply negb_false_iff, mem_h_In in Hf.
+  apply (proj1 (dedup_In _ _)) in Hf. exact Hf.
+Qed.
+
+Lemma iter_rep_sound :
+  fst (iter_rep H no_skip c rep pairs recs xs ys p1 p2) = [] ->
+  hashes_added H c rep xs ys = [] /\ hashes_removed H c rep xs ys = [] /\
+  (forall h, count h hh1 = count h hh2).
+Proof.
+  unfold iter_rep.
+  destruct (added_loop _ (hashes_added H c rep xs ys) (hashes_removed H c rep xs ys)) as [ra remaining] eqn:EL.
+  rewrite !fst_app2. intro Hn. apply app_eq_nil in Hn as [Ha Hn]. apply app_eq_nil in Hn as [Hr Hi].
+  assert (Hadd : hashes_added H c rep xs ys = []).
+  { eapply added_loop_nil; [|rewrite EL; exact Ha].
+    intros a rem' Hin. apply added_spec in Hin as [X Y]. apply added_one_rep_nonempty; auto. }
+  rewrite Hadd in EL. cbn [added_loop] in EL. inversion EL; subst ra remaining. clear EL.
+  assert (Hrem : hashes_removed H c rep xs ys = []).
+  { destruct (hashes_removed H c rep xs ys) as [|r rs] eqn:E; [reflexivity|]. exfalso.
+    assert (Hin : In r (hashes_removed H c rep xs ys)) by (rewrite E; left; reflexivity).
+    apply removed_spec in Hin as [X _].
+    pose proof (fst_concat_res _ Hr (removed_one_rep H no_skip c rep xs p1 p2 r) (or_introl eq_refl)) as Hz.
+    unfold removed_one_rep in Hz. cbn [fst] in Hz.
+    pose proof (indexes_nonempty r hh1 0 X) as His.
+    destruct (indexes_of r hh1 0); [congruence|]. cbn [flat_map] in Hz. rewrite rpt_one in Hz. discriminate. }
+  split; [exact Hadd|]. split; [exact Hrem|].
+  intros h.
+  destruct (in_dec pystr_eq_dec h hh2) as [Hin|Hnin].
+  - assert (Hc : In h (filter (fun h0 => mem_h h0 (t1_hashes H c rep xs)) (t2_hashes H c rep ys))).
+    { apply filter_In. split; [apply (proj2 (dedup_In _ _)); exact Hin|]. apply mem_h_In.
+      apply (proj2 (dedup_In _ _)). apply all_in_2_1; auto. }
+    pose proof (fst_concat_res _ Hi (repetition_one H no_skip c rep xs ys p1 p2 h) (in_map _ _ _ Hc)) as Hz.
+    unfold repetition_one in Hz. rewrite !indexes_length in Hz.
+    destruct (Nat.eqb (count h hh1) (count h hh2)) eqn:E.
+    + apply Nat.eqb_eq in E. exact E.
+    + cbn [no_skip fst] in Hz. discriminate.
+  - rewrite (count_notin h hh2 Hnin). apply count_notin. intro X. apply Hnin. apply all_in_1_2; auto.
+Qed.
+
+Lemma iter_norep_sound :
+  fst (iter_norep H no_skip c rep pairs recs xs ys p1 p2) = [] ->
+  hashes_added H c rep xs ys = [] /\ hashes_removed H c rep xs ys = [].
+Proof.
+  unfold iter_norep.
+  destruct (added_loop _ (hashes_added H c rep xs ys) (hashes_removed H c rep xs ys)) as [ra remaining] eqn:EL.
+  rewrite !fst_app2. intro Hn. apply app_eq_nil in Hn as [Ha Hr].
+  assert (Hadd : hashes_added H c rep xs ys = []).
+  { eapply added_loop_nil; [|rewrite EL; exact Ha].
+    intros a rem' Hin. apply added_spec in Hin as [X Y]. apply added_one_nonempty; auto. }
+  rewrite Hadd in EL. cbn [added_loop] in EL. inversion EL; subst ra remaining. clear EL.
+  split; [exact Hadd|].
+  destruct (hashes_removed H c rep xs ys) as [|r rs] eqn:E; [reflexivity|]. exfalso.
+  pose proof (fst_concat_res _ Hr (removed_one H no_skip c rep xs p1 p2 r) (or_introl eq_refl)) as Hz.
+  unfold removed_one in Hz. cbn [fst] in Hz. rewrite rpt_one in Hz. discriminate.
+Qed.
+
+(* the arranged item hashes coincide, hence the two sequences hash equally *)
+Lemma iter_sound_arrange :
+  fst (iter_deephash H no_skip c rep pairs recs xs ys p1 p2) = [] ->
+  arrange o hh1 = arrange o hh2.
+Proof.
+  unfold iter_deephash. destruct rep_cases as [E|E].
+  - rewrite (if_true _ _ _ E). intro Hn. apply iter_rep_sound in Hn as [_ [_ Hc]].
+    apply arrange_perm; [reflexivity|]. apply count_eq_perm. exact Hc.
+  - rewrite (if_false _ _ _ E). intro Hn. apply iter_norep_sound in Hn as [Ha Hr].
+    apply arrange_same_set; [reflexivity|rewrite o_rep, E; reflexivity|].
+    intro x. split; [apply all_in_1_2|apply all_in_2_1]; auto.
+Qed.
+End LevelSound.
+
+(* ---- sets ---- *)
+Lemma first_per_hash_cover (hatom : atom -> pystr) l seen y :
+  In y l -> existsb (pystr_eqb (hatom y)) seen = true \/
+            exists y', In y' (first_per_hash hatom l seen) /\ hatom y' = hatom y.
+Proof.
+  revert seen; induction l as [|a r IH]; intros seen; [intros []|]. cbn [first_per_hash].
+  intros [->|Hin].
+  - destruct (existsb (pystr_eqb (hatom y)) seen) eqn:E; [left; reflexivity|].
+    right. exists y. split; [left; reflexivity|reflexivity].
+  - destruct (existsb (pystr_eqb (hatom a)) seen) eqn:E.
+    + destruct (IH seen Hin) as [Hs|[y' [Hy' He]]]; [left; exact Hs|right; exists y'; auto].
+    + destruct (IH (hatom a :: seen) Hin) as [Hs|[y' [Hy' He]]].
+      * cbn [existsb] in Hs. apply orb_true_iff in Hs as [Hs|Hs]; [|left; exact Hs].
+        apply ValueFacts.pystr_eqb_eq in Hs. right. exists a. split; [left; reflexivity|congruence].
+      * right. exists y'. split; [right; exact Hy'|exact He].
+Qed.
+
+Lemma atom_hash_inj a b :
+  tag_safe_atom a = true -> tag_safe_atom b = true -> hatom_io H c rep a = hatom_io H c rep b -> a = b.
+Proof.
+  intros Ta Tb He.
+  assert (Hv : eqv o (VAtom a) (VAtom b)).
+  { apply Hyp_C07; try reflexivity; unfold tag_safe; cbn [atoms_of forallb]; try (rewrite Ta || rewrite Tb); auto. }
+  inversion Hv; reflexivity.
+Qed.
+
+Lemma diff_set_nil xs ys p1 p2 :
+  (forall a, In a xs -> tag_safe_atom a = true) -> (forall a, In a ys -> tag_safe_atom a = true) ->
+  diff_set (hatom_io H c rep) no_skip xs ys p1 p2 = [] -> forall a, In a xs <-> In a ys.
+Proof.
+  intros Tx Ty Hn. unfold diff_set in Hn. apply app_eq_nil in Hn as [Hadd Hrem].
+  assert (G : forall l l' (f : atom -> list entry), (forall y, f y <> []) ->
+            (forall a, In a l -> tag_safe_atom a = true) -> (forall a, In a l' -> tag_safe_atom a = true) ->
+            flat_map (fun y => if existsb (pystr_eqb (hatom_io H c rep y)) (map (hatom_io H c rep) l') then []
+                               else f y) (first_per_hash (hatom_io H c rep) l []) = [] ->
+            forall a, In a l -> In a l').
+  { intros l l' f Hf Tl Tl' Hfm a Ha.
+    destruct (first_per_hash_cover (hatom_io H c rep) l [] a Ha) as [Hs|[y' [Hy' He]]]; [discriminate|].
+    pose proof (flat_map_nil_inv _ _ y' Hfm Hy') as Hz. cbn beta in Hz.
+    destruct (existsb (pystr_eqb (hatom_io H c rep y')) (map (hatom_io H c rep) l')) eqn:E;
+      [|exfalso; eapply Hf; eauto].
+    apply existsb_exists in E as [h [Hh Hq]]. apply ValueFacts.pystr_eqb_eq in Hq. subst h.
+    apply in_map_iff in Hh as [b [Hb Hbl]].
+    assert (b = a); [|subst; auto].
+    apply first_per_hash_incl in Hy'.
+    apply atom_hash_inj; auto. congruence. }
+  intro a. split.
+  - apply (G xs ys (fun x => report_set no_skip KSetRem x p1 p2)); auto.
+    intros y. unfold report_set. cbn [no_skip]. discriminate.
+  - apply (G ys xs (fun y => report_set no_skip KSetAdd y p1 p2)); auto.
+    intros y. unfold report_set. cbn [no_skip]. discriminate.
+Qed.
+
+(* ---- dicts ---- *)
+Lemma common_nil_inv kvs2 k2 p1 p2 l k v1 v2 :
+  fst (io_common kvs2 k2 p1 p2 l) = [] -> In (k, v1) l -> keep_key c k = true ->
+  find (py_eq k) k2 = Some k -> assoc k kvs2 = Some v2 ->
+  fst (dio v1 v2 (snoc p1 (PKey k)) (snoc p2 (PKey k))) = [].
+Proof.
+  induction l as [|[k' w] r IH]; [intros _ []|]. cbn [io_common]. fold (io_common kvs2 k2 p1 p2 r).
+  intros Hn Hin Hk Hf Ha. destruct Hin as [E|Hin].
+  - inversion E; subst k' w. rewrite Hk, Hf, Ha in Hn. rewrite fst_app2 in Hn.
+    apply app_eq_nil in Hn as [Hn _]. exact Hn.
+  - apply IH; auto. destruct (keep_key c k'); [|exact Hn].
+    destruct (find (py_eq k') k2) as [k''|]; [|exact Hn].
+    destruct (assoc k'' kvs2); [|exact Hn].
+    rewrite fst_app2 in Hn. apply app_eq_nil in Hn as [_ Hn]. exact Hn.
+Qed.
+
+Lemma Forall2_map_r {A B} (R : A -> B -> Prop) (f : A -> B) l : (forall x, In x l -> R x (f x)) -> Forall2 R l (map f l).
+Proof.
+  induction l as [|x r IH]; intros Hr; cbn [map]; constructor.
+  - apply Hr; left; reflexivity.
+  - apply IH. intros; apply Hr; right; auto.
+Qed.
+
+Lemma NoDup_fst {A B} (l : list (A * B)) : NoDup (map fst l) -> NoDup l.
+Proof.
+  induction l as [|[k v] r IH]; cbn [map fst]; intros Hn; constructor; inversion Hn; subst; auto.
+  intro Hin. apply H2. apply in_map_iff. exists (k, v). auto.
+Qed.
+
+Lemma keys_nodup kvs : nodup_atoms (map fst kvs) = true -> NoDup (keys_of c kvs).
+Proof. intros Hn. apply nodup_NoDup. unfold keys_of. apply nodup_filter. exact Hn. Qed.
+
+Lemma io_dict_sound kvs1 kvs2 p1 p2 :
+  wf (VDict kvs1) = true -> wf (VDict kvs2) = true ->
+  NA (atoms_of (VDict kvs1) ++ atoms_of (VDict kvs2)) ->
+  (forall k v1 v2 q1 q2, In (k, v1) kvs1 -> In (k, v2) kvs2 -> fst (dio v1 v2 q1 q2) = [] -> eqv o v1 v2) ->
+  fst (io_dict kvs1 kvs2 p1 p2) = [] -> eqv o (VDict kvs1) (VDict kvs2).
+Proof.
+  intros W1 W2 Hna IHv. unfold io_dict.
+  destruct (dict_shortcut excl c (keys_of c kvs1) (keys_of c kvs2) p1); [cbn [fst]; rewrite rpt_one; discriminate|].
+  cbn [fst]. intro Hn. apply app_eq_nil in Hn as [Hadd Hn]. apply app_eq_nil in Hn as [Hrem Hcom].
+  cbn [wf] in W1, W2. apply andb_true_iff in W1 as [N1 _]. apply andb_true_iff in W2 as [N2 _].
+  (* keys: mutual inclusion *)
+  assert (Kin : forall k kvs kvs', In k (keys_of c kvs) -> mem_atom k (keys_of c kvs') = true ->
+                incl (atoms_of (VDict kvs) ++ atoms_of (VDict kvs')) (atoms_of (VDict kvs1) ++ atoms_of (VDict kvs2)) ->
+                In k (keys_of c kvs')).
+  { intros k kvs kvs' Hk Hm Hincl. apply mem_atom_In in Hm as [k' [Hk' He]].
+    assert (k = k'); [|subst; auto].
+    apply Hna; auto; apply Hincl; apply in_or_app.
+    - left. unfold keys_of in Hk. apply filter_In in Hk as [Hk _]. apply in_map_iff in Hk as [[kk vv] [<- Hi]].
+      eapply atoms_dict_key; eauto.
+    - right. unfold keys_of in Hk'. apply filter_In in Hk' as [Hk' _]. apply in_map_iff in Hk' as [[kk vv] [<- Hi]].
+      eapply atoms_dict_key; eauto. }
+  assert (K21 : forall k, In k (keys_of c kvs2) -> In k (keys_of c kvs1)).
+  { intros k Hk. apply (Kin k kvs2 kvs1); auto.
+    - pose proof (flat_map_nil_inv _ _ k Hadd Hk) as Hz. cbn beta in Hz.
+      destruct (mem_atom k (keys_of c kvs1)); [reflexivity|rewrite rpt_one in Hz; discriminate].
+    - intros a Ha. apply in_app_or in Ha. apply in_or_app. tauto. }
+  assert (K12 : forall k, In k (keys_of c kvs1) -> In k (keys_of c kvs2)).
+  { intros k Hk. apply (Kin k kvs1 kvs2); auto.
+    - pose proof (flat_map_nil_inv _ _ k Hrem Hk) as Hz. cbn beta in Hz.
+      destruct (mem_atom k (keys_of c kvs2)); [reflexivity|rewrite rpt_one in Hz; discriminate].
+    - intros a Ha. exact Ha. }
+  (* the partner of every visible item of kvs1 *)
+  assert (P : forall k v1, In (k, v1) (vis o kvs1) ->
+              exists v2, In (k, v2) (vis o kvs2) /\ assoc k kvs2 = Some v2 /\ eqv o v1 v2).
+  { intros k v1 Hv. apply vis_In in Hv as [Hin Hkeep].
+    assert (Hk1 : In k (keys_of c kvs1)).
+    { unfold keys_of. apply filter_In. split; auto. apply in_map_iff. exists (k, v1). auto. }
+    pose proof (K12 k Hk1) as Hk2.
+    assert (Hf : find (py_eq k) (keys_of c kvs2) = Some k).
+    { apply nodup_find; auto. unfold keys_of. apply nodup_filter. exact N2. }
+    rewrite keys_vis in Hk2. apply in_map_iff in Hk2 as [[k' v2] [Ek Hv2]]. cbn [fst] in Ek. subst k'.
+    exists v2. split; auto.
+    apply vis_In in Hv2 as [Hin2 _].
+    assert (Ha : assoc k kvs2 = Some v2) by (apply nodup_assoc; auto).
+    split; auto.
+    eapply IHv; eauto. eapply common_nil_inv; eauto. }
+  apply eqv_dict.
+  set (f := fun kv : atom * value => (fst kv, match assoc (fst kv) kvs2 with Some v => v | None => snd kv end)).
+  apply items_perm with (l2' := map f (vis o kvs1)).
+  - apply NoDup_Permutation.
+    + apply NoDup_fst. rewrite <- keys_vis. apply keys_nodup; auto.
+    + apply NoDup_fst. rewrite map_map. cbn [f fst]. rewrite <- keys_vis. apply keys_nodup; auto.
+    + intros [k v]. split.
+      * intros Hin. assert (Hk2 : In k (keys_of c kvs2)) by (rewrite keys_vis; apply in_map_iff; exists (k, v); auto).
+        apply K21 in Hk2. rewrite keys_vis in Hk2. apply in_map_iff in Hk2 as [[k' v1] [Ek Hv1]]. cbn [fst] in Ek. subst k'.
+        apply in_map_iff. exists (k, v1). split; auto. unfold f. cbn [fst snd].
+        apply vis_In in Hin as [Hin _]. rewrite (nodup_assoc k v kvs2 N2 Hin). reflexivity.
+      * intros Hin. apply in_map_iff in Hin as [[k' v1] [Ef Hv1]]. unfold f in Ef. cbn [fst snd] in Ef.
+        destruct (P k' v1 Hv1) as [v2 [Hv2 [Ha _]]]. rewrite Ha in Ef. inversion Ef; subst. exact Hv2.
+  - apply Forall2_map_r. intros [k v1] Hv1. unfold f. cbn [fst snd]. split; [reflexivity|].
+    destruct (P k v1 Hv1) as [v2 [Hv2 [Ha He]]]. rewrite Ha. exact He.
+Qed.
+
+(* ---- the whole value ---- *)
+Lemma wf_item_list x xs : wf (VList xs) = true -> In x xs -> wf x = true.
+Proof. cbn [wf]. rewrite forallb_forall. auto. Qed.
+Lemma wf_item_tuple x xs : wf (VTuple xs) = true -> In x xs -> wf x = true.
+Proof. cbn [wf]. rewrite forallb_forall. auto. Qed.
+
+Lemma NA_sub l1 l2 m1 m2 : incl l1 m1 -> incl l2 m2 -> NA (m1 ++ m2) -> NA (l1 ++ l2).
+Proof.
+  intros I1 I2. apply NA_incl. intros a Ha. apply in_app_or in Ha. apply in_or_app. destruct Ha; [left|right]; auto.
+Qed.
+
+Lemma seq_sound (tagname : pystr) (mk : list value -> value) xs ys p1 p2 :
+  (forall l, hvv (mk l) = H (retag o (seq_result tagname (arrange o (map hvv l))))) ->
+  (forall x l, In x l -> incl (atoms_of x) (atoms_of (mk l))) ->
+  (forall x l, wf (mk l) = true -> In x l -> wf x = true) ->
+  Forall (fun x => forall t2 q1 q2, wf x = true -> wf t2 = true -> tag_safe x = true -> tag_safe t2 = true ->
+                   NA (atoms_of x ++ atoms_of t2) -> fst (dio x t2 q1 q2) = [] -> eqv o x t2) xs ->
+  wf (mk xs) = true -> wf (mk ys) = true -> tag_safe (mk xs) = true -> tag_safe (mk ys) = true ->
+  NA (atoms_of (mk xs) ++ atoms_of (mk ys)) ->
+  fst (iter_deephash H no_skip c rep pairs (map dio xs) xs ys p1 p2) = [] -> eqv o (mk xs) (mk ys).
+Proof.
+  intros Hh Hat Hw IH W1 W2 T1 T2 Hna Hn.
+  apply Hyp_C07; auto. rewrite !Hh. do 3 f_equal.
+  apply (iter_sound_arrange xs ys p1 p2); auto.
+  intros x y q1 q2 Hx Hy Hd. apply eqv_hv.
+  rewrite Forall_forall in IH. apply (IH x Hx y q1 q2); auto.
+  - apply (Hw x xs W1 Hx).
+  - apply (Hw y ys W2 Hy).
+  - apply (tag_safe_incl x (mk xs)); [apply Hat; exact Hx|exact T1].
+  - apply (tag_safe_incl y (mk ys)); [apply Hat; exact Hy|exact T2].
+  - apply (NA_sub _ _ (atoms_of (mk xs)) (atoms_of (mk ys))); [apply Hat; exact Hx|apply Hat; exact Hy|exact Hna].
+Qed.
+
+Lemma dio_type t1 t2 p1 p2 : fst (dio t1 t2 p1 p2) = [] -> type_of t1 = type_of t2.
+Proof.
+  intro Hn. apply ty_eqb_eq. destruct (ty_eqb (type_of t1) (type_of t2)) eqn:E; [reflexivity|exfalso].
+  destruct t1; cbn [diff_io no_skip] in Hn; rewrite E in Hn; cbn [negb fst] in Hn; rewrite rpt_one in Hn; discriminate.
+Qed.
+
+Theorem io_sound : forall t1 t2 p1 p2,
+  wf t1 = true -> wf t2 = true -> tag_safe t1 = true -> tag_safe t2 = true ->
+  NA (atoms_of t1 ++ atoms_of t2) ->
+  fst (dio t1 t2 p1 p2) = [] -> eqv o t1 t2.
+Proof.
+  intros t1. induction t1 as [a|xs IH|xs IH|kvs IH|xs|xs] using HashProofsC06.value_ind';
+    intros t2 p1 p2 W1 W2 T1 T2 Hna Hn; pose proof (dio_type _ _ _ _ Hn) as Hty;
+    destruct t2; try (cbn in Hty; destruct a; discriminate); try discriminate Hty.
+  - cbn [diff_io no_skip type_of] in Hn.
+    destruct (ty_eqb (atom_ty a) (atom_ty a0)); cbn [negb fst] in Hn; [|rewrite rpt_one in Hn; discriminate].
+    apply diff_atom_nil in Hn. subst. constructor.
+  - rewrite dio_list in Hn.
+    eapply (seq_sound _ VList xs xs0 p1 p2); eauto.
+    + intros l. reflexivity.
+    + intros x l. apply atoms_item_list.
+    + intros x l. apply wf_item_list.
+  - rewrite dio_tuple in Hn.
+    eapply (seq_sound _ VTuple xs xs0 p1 p2); eauto.
+    + intros l. reflexivity.
+    + intros x l. apply atoms_item_tuple.
+    + intros x l. apply wf_item_tuple.
+  - rewrite dio_dict in Hn. eapply io_dict_sound; eauto.
+    intros k v1 v2 q1 q2 Hi1 Hi2 Hd. rewrite Forall_forall in IH.
+    apply (IH (k, v1) Hi1 v2 q1 q2); auto.
+    + cbn [wf] in W1. apply andb_true_iff in W1 as [_ W1]. rewrite forallb_forall in W1. apply (W1 (k, v1) Hi1).
+    + cbn [wf] in W2. apply andb_true_iff in W2 as [_ W2]. rewrite forallb_forall in W2. apply (W2 (k, v2) Hi2).
+    + eapply tag_safe_incl; [eapply atoms_dict_val; eauto|auto].
+    + eapply tag_safe_incl; [eapply atoms_dict_val; eauto|auto].
+    + eapply NA_sub; [eapply atoms_dict_val; eauto|eapply atoms_dict_val; eauto|exact Hna].
+  - cbn [diff_io no_skip type_of ty_eqb negb fst] in Hn.
+    apply eqv_set. apply NoDup_Permutation.
+    + apply nodup_NoDup. exact W1.
+    + apply nodup_NoDup. exact W2.
+    + eapply diff_set_nil; eauto.
+      * intros a Ha. rewrite tag_safe_forall in T1. apply T1. exact Ha.
+      * intros a Ha. rewrite tag_safe_forall in T2. apply T2. exact Ha.
+  - cbn [diff_io no_skip type_of ty_eqb negb fst] in Hn.
+    apply eqv_frozen. apply NoDup_Permutation.
+    + apply nodup_NoDup. exact W1.
+    + apply nodup_NoDup. exact W2.
+    + eapply diff_set_nil; eauto.
+      * intros a Ha. rewrite tag_safe_forall in T1. apply T1. exact Ha.
+      * intros a Ha. rewrite tag_safe_forall in T2. apply T2. exact Ha.
 Qed.
 End Proofs.
